@@ -130,6 +130,8 @@ async fn long_session(n: usize, retries: u8) -> (u64, u64, Vec<mc::Violation>, s
 
 pub fn c20_worlds() -> Vec<(String, HCfg)> {
     vec![
+        // an answer of 40 packets handed over in one go (more than the queue to the send task holds)
+        ("find40".to_string(), HCfg { nodes: 2, workload: vec![req(0, 1, Body::Find(40), true)], allow_dup: false, allow_reorder: false, allow_drop: false, allow_early_timer: false, ..Default::default() }),
         ("held-talk".to_string(), HCfg { nodes: 2, workload: vec![req(0, 1, Body::Talk, true), req(1, 0, Body::Ping, true)], allow_dup: false, allow_reorder: false, ..Default::default() }),
         ("held-talk-noenr".to_string(), HCfg { nodes: 2, workload: vec![req(0, 1, Body::Talk, false), req(1, 0, Body::Talk, true)], allow_dup: false, allow_reorder: false, ..Default::default() }),
     ]
@@ -139,6 +141,16 @@ pub fn c20_worlds() -> Vec<(String, HCfg)> {
 /// request while its own request to the requester is lost and times out; answering afterwards
 /// must still put exactly that response on the wire to the requester.
 pub fn c20_part(thorough: bool) -> (mc::Stats, Vec<mc::Violation>) {
+    handler_part("C20", thorough)
+}
+
+/// The same worlds read for C14 ("every request is answered": the transport puts every response
+/// packet on the wire).
+pub fn c14_part(thorough: bool) -> (mc::Stats, Vec<mc::Violation>) {
+    handler_part("C14", thorough)
+}
+
+fn handler_part(prop: &str, thorough: bool) -> (mc::Stats, Vec<mc::Violation>) {
     let monitors = Monitors { c03: false, c04: false, c13: false, c15: false, c19: false, c20: true };
     let worlds = c20_worlds();
     let k = if thorough { 3 } else { 2 };
@@ -146,7 +158,7 @@ pub fn c20_part(thorough: bool) -> (mc::Stats, Vec<mc::Violation>) {
     let mut found = vec![];
     for (name, cfg) in &worlds {
         let mut cfg = cfg.clone();
-        cfg.focus = vec!["C20".to_string()];
+        cfg.focus = vec![prop.to_string()];
         let cfg = &cfg;
         let limits = Limits { max_budget: k, max_depth: 80, max_states: 2_000_000, wall_s: mc::budget(thorough, 15.0, 0.2) };
         let mut vio = vec![];
@@ -164,7 +176,7 @@ pub fn c20_part(thorough: bool) -> (mc::Stats, Vec<mc::Violation>) {
             total.cap = stats.cap;
         }
         for mut v in vio {
-            if v.key.starts_with("C20:") || v.key.starts_with("panic:") {
+            if v.key.starts_with(&format!("{prop}:")) || v.key.starts_with("panic:") {
                 v.replay["workload"] = json!(name);
                 v.replay["engine"] = json!("hsim");
                 v.replay["driver"] = json!("hdrive");
